@@ -290,7 +290,11 @@ def c02f(ck, prog):
     (same rule as C07-b for path parameters): in Request::read and its closures no integer FromStr is called."""
     R = "C02-f API-MISUSE numeric header"
     rd = prog.one(r"^ohkami::request::Request::read::\{closure#0\}$")
-    bodies = [rd] + prog.descendants(rd.key)
+    # everything Request::read can reach inside the crate: its closures and the local helpers it calls (a free function
+    # `content_length_of(v)` is as much part of the parser as an inline fold)
+    from .lib.reach import Reach
+    rr = Reach(prog, [rd] + prog.descendants(rd.key), boundary=[r"FangProc|Handler|Fn(Once|Mut)?<"])
+    bodies = [g for g in rr.reached.values() if g.crate in ("ohkami", "ohkami_lib")]
     bad = []
     for g in bodies:
         for c in g.calls():
